@@ -125,3 +125,76 @@ def same_expr(a, b):
 
 def subscript_of(node, base_pred, key_pred=None):
     return isinstance(node, ast.Subscript) and base_pred(node.value) and (key_pred is None or key_pred(node.slice))
+
+
+def _is_copier(node, copiers):
+    """node is a callable reference naming a copier: copy / Point / copy.copy"""
+    if isinstance(node, ast.Name):
+        return node.id in copiers
+    if isinstance(node, ast.Attribute):
+        return node.attr in copiers
+    return False
+
+
+def _copy_of(expr, var, copiers):
+    """expr is copier(var) / var.__copy__() / copy.copy(var)"""
+    if isinstance(expr, ast.Call) and len(expr.args) == 1 and not expr.keywords and _is_copier(expr.func, copiers) and isinstance(expr.args[0], ast.Name) and expr.args[0].id == var:
+        return True
+    if isinstance(expr, ast.Call) and not expr.args and isinstance(expr.func, ast.Attribute) and expr.func.attr == "__copy__" and isinstance(expr.func.value, ast.Name) and expr.func.value.id == var:
+        return True
+    return False
+
+
+def strip_list(expr):
+    """list(X) / tuple(X) / X[:] / iter(X) -> X"""
+    while True:
+        if isinstance(expr, ast.Call) and isinstance(expr.func, ast.Name) and expr.func.id in ("list", "tuple", "iter") and len(expr.args) == 1 and not expr.keywords:
+            expr = expr.args[0]
+            continue
+        if isinstance(expr, ast.Subscript) and isinstance(expr.slice, ast.Slice) and expr.slice.lower is None and expr.slice.upper is None and expr.slice.step is None:
+            expr = expr.value
+            continue
+        return expr
+
+
+def elementwise_copy(expr, copiers=("copy",)):
+    """If expr builds a collection holding a copy of every element of some source, return the source expression, else None.
+    Recognised: map(copy, S), [copy(e) for e in S], (copy(e) for e in S), e.__copy__() forms, any of them under list()/tuple()."""
+    expr = strip_list(expr)
+    if isinstance(expr, ast.Call) and isinstance(expr.func, ast.Name) and expr.func.id == "map" and len(expr.args) == 2 and _is_copier(expr.args[0], copiers):
+        return strip_list(expr.args[1])
+    if isinstance(expr, (ast.ListComp, ast.GeneratorExp)) and len(expr.generators) == 1 and not expr.generators[0].ifs and isinstance(expr.generators[0].target, ast.Name):
+        if _copy_of(expr.elt, expr.generators[0].target.id, copiers):
+            return strip_list(expr.generators[0].iter)
+    return None
+
+
+def refresh_loops(fn, copiers=("copy",)):
+    """Names of lists whose every slot is replaced by a copy of itself: for i in range(len(L)): L[i] = copy(L[i]) (or enumerate form)."""
+    out = set()
+    for lp in ast.walk(fn):
+        if not isinstance(lp, ast.For):
+            continue
+        it = lp.iter
+        idx = elem = lst = None
+        if isinstance(it, ast.Call) and isinstance(it.func, ast.Name) and it.func.id == "range" and isinstance(lp.target, ast.Name):
+            a = it.args[-1] if len(it.args) in (1, 2) else None
+            if len(it.args) == 2 and not (isinstance(it.args[0], ast.Constant) and it.args[0].value == 0):
+                a = None
+            if isinstance(a, ast.Call) and isinstance(a.func, ast.Name) and a.func.id == "len" and len(a.args) == 1 and isinstance(a.args[0], ast.Name):
+                idx, lst = lp.target.id, a.args[0].id
+        elif isinstance(it, ast.Call) and isinstance(it.func, ast.Name) and it.func.id == "enumerate" and len(it.args) == 1 and isinstance(it.args[0], ast.Name) \
+                and isinstance(lp.target, ast.Tuple) and len(lp.target.elts) == 2 and all(isinstance(e, ast.Name) for e in lp.target.elts):
+            idx, elem, lst = lp.target.elts[0].id, lp.target.elts[1].id, it.args[0].id
+        if lst is None:
+            continue
+        for st in lp.body:
+            if isinstance(st, ast.Assign) and len(st.targets) == 1 and isinstance(st.targets[0], ast.Subscript) and isinstance(st.targets[0].value, ast.Name) \
+                    and st.targets[0].value.id == lst and isinstance(st.targets[0].slice, ast.Name) and st.targets[0].slice.id == idx:
+                v = st.value
+                if elem is not None and _copy_of(v, elem, copiers):
+                    out.add(lst)
+                if isinstance(v, ast.Call) and len(v.args) == 1 and _is_copier(v.func, copiers) and isinstance(v.args[0], ast.Subscript) and isinstance(v.args[0].value, ast.Name) \
+                        and v.args[0].value.id == lst and isinstance(v.args[0].slice, ast.Name) and v.args[0].slice.id == idx:
+                    out.add(lst)
+    return out
